@@ -71,3 +71,12 @@ extern "C" void vp_thread2() {     // writer
   pump(PUMP);
 #endif
 }
+
+#ifdef SCANNER
+// third thread: retires a private node, which makes it scan while the others run
+extern "C" void vp_thread3() {
+  Node* t = new Node(9);
+  GP g(MP(t));
+  g.reclaim();
+}
+#endif
